@@ -21,6 +21,10 @@ const SimProto = protocol.ConsensusVersion("verif-ledgersim-v1")
 
 var protoOnce sync.Once
 
+// protoTweaks lets observer files (init()) adjust SimProto's parameters and register further versions
+// before the first ledger is opened. Each receives the params about to be registered as SimProto.
+var protoTweaks []func(p *config.ConsensusParams)
+
 func registerProto() {
 	protoOnce.Do(func() {
 		p := config.Consensus[protocol.ConsensusCurrentVersion]
@@ -32,6 +36,9 @@ func registerProto() {
 		p.RewardsRateRefreshInterval = 16
 		p.CatchpointLookback = 8
 		p.StateProofInterval = 0 // state proofs off: not in scope of the ledgersim properties
+		for _, f := range protoTweaks {
+			f(&p)
+		}
 		config.Consensus[SimProto] = p
 	})
 }
